@@ -139,7 +139,7 @@ def toPy : V → Option PyVal
   | .bool b => some (.bool b)
   | .int c i => if c == 0 then some (.int i) else none
   | .float c f => if c == 0 then some (.float f) else none
-  | .dec c d => if c == 0 then some (.dec d) else none
+  | .dec c d => if c == 0 && !isSNaN (.dec c d) then some (.dec d) else none     -- comparing a signalling NaN raises: outside `Py.eq`
   | .str c s => if c == 0 then some (.str s) else none
   | .seq k c xs =>
     if c == 0 then
